@@ -129,7 +129,10 @@ func cmdDump(args []string) int {
 			ob := fc.obls[n]
 			fmt.Printf("   %s [%s] paths=%d  %s\n", ob.Name, strings.Join(ob.Tags, ","), len(ob.Queries), ob.Descr)
 			if *which != "" && strings.Contains(ob.Name, *which) && len(ob.Queries) > 0 {
-				fmt.Println(fc.queryText(ob.Queries[0]))
+				for qi, q := range ob.Queries {
+					fmt.Printf(";;;; QUERY %d\n", qi)
+					fmt.Println(fc.queryText(q))
+				}
 			}
 		}
 	}
